@@ -180,6 +180,9 @@ func (vm *vm) run() error {
 
 			case instr == opMUL && isString(peek(1)) && isInt(peek(0)):
 				b, a := pop().(int), pop().(string)
+				if b < 0 {
+					return vm.runtimeError("MUL: negative repeat count")
+				}
 				push(strings.Repeat(a, b))
 
 			case instr == opEQ:
